@@ -1,5 +1,6 @@
 import StepModel.P21.Writer
 import StepModel.Generated.P21RWGen
+import StepModel.Generated.P21LexGen
 /-! Line-protocol driver for the Part 21 reader/writer model (`P21.Reader`, `P21.Writer`); used by checks/c01.py and
 checks/c03.py.  One request per line, one reply per line.
 
@@ -60,12 +61,16 @@ def addAttr (d : Dict) (a : AttrD) : Option Dict :=
 def lexCfg : LexCfg := StepModel.Generated.rwLexCfg
 def rwCfg : RWCfg := StepModel.Generated.rwCfg
 
+/-- the float operations that follow the source's `WriteReal` (C09's regenerated `writeRealRoundTrips`: 15 significant
+    digits, raised to 16 / 17 until the text converts back) -/
+def fops : FloatOps Nat := dblOpsOf StepModel.Generated.writeRealRoundTrips
+
 def showCfg : String :=
   let b (x : Bool) := if x then "1" else "0"
   s!"cfg stringNodeAppends={b rwCfg.stringNodeAppends} criSkipsComments={b lexCfg.criSkipsComments} " ++
   s!"aggrSkipsComments={b rwCfg.aggrSkipsComments} complexMergesParts={b rwCfg.complexMergesParts} complexMergesAttrErrors={b rwCfg.complexMergesAttrErrors} " ++
   s!"complexPartStrict={match rwCfg.complexPartStrict with | none => "fwd" | some x => b x} " ++
-  s!"recoveryKeepsSemicolon={b rwCfg.recoveryKeepsSemicolon} recoveryStopsAtSemicolon={b rwCfg.recoveryStopsAtSemicolon} missingCheckEverySecond={b rwCfg.missingCheckEverySecond} rawValueStaysInRecord={b rwCfg.rawValueStaysInRecord} complexReportsError={b rwCfg.complexReportsError} " ++
+  s!"recoveryKeepsSemicolon={b rwCfg.recoveryKeepsSemicolon} commentsOfAnyLength={b rwCfg.commentsOfAnyLength} recoveryStopsAtSemicolon={b rwCfg.recoveryStopsAtSemicolon} recoveryCountsQuotes={b rwCfg.recoveryCountsQuotes} missingCheckEverySecond={b rwCfg.missingCheckEverySecond} rawValueStaysInRecord={b rwCfg.rawValueStaysInRecord} complexReportsError={b rwCfg.complexReportsError} " ++
   s!"skipInstanceSkipsComments={b rwCfg.skipInstanceSkipsComments} missingSemicolonReported={b rwCfg.missingSemicolonReported} fillerOnlyForDollar={b rwCfg.fillerOnlyForDollar} fillerKeepsError={b rwCfg.fillerKeepsError} errorResyncsFromStart={b rwCfg.errorResyncsFromStart} numberElemReadsNumber={b rwCfg.numberElemReadsNumber} aggrReportsMissingElement={b rwCfg.aggrReportsMissingElement} pcdEatsNextChar={b StepModel.Generated.pcdEatsNextChar} " ++
   s!"intReportsFail={b lexCfg.intReportsFail} realReportsFail={b lexCfg.realReportsFail} " ++
   s!"numberReportsFail={b lexCfg.numberReportsFail} logicalRejectsUnset={b lexCfg.logicalRejectsUnset} " ++
@@ -76,7 +81,7 @@ def typeName (i : MInst Nat) : String :=
   else match i.parts with | p :: _ => p.name | [] => "?"
 
 def doRead (d : Dict) (strict skipws : Bool) (bytes : List Byte) : String :=
-  match readDataSection dblOps lexCfg rwCfg d strict skipws bytes with
+  match readDataSection fops lexCfg rwCfg d strict skipws bytes with
   | .error .outOfFuel => "X outOfFuel"
   | .error .overflow => "X overflow"
   | .error (.unmodelled why) => "X unmodelled " ++ why
@@ -84,7 +89,7 @@ def doRead (d : Dict) (strict skipws : Bool) (bytes : List Byte) : String :=
     let head := s!"R sev={r.sev.name} ret={r.ret.name} exit={exitStatus r.sev} created={r.created} " ++
       s!"notcreated={r.notCreated} valid={r.valid} invalid={r.invalid} incomplete={r.incomplete} |"
     let insts := r.mgr.insts.map (fun i =>
-      s!" {i.id}/{typeName i}/{i.state.name}/{toHexB (writeInst dblOps rwCfg d i)}")
+      s!" {i.id}/{typeName i}/{i.state.name}/{toHexB (writeInst fops rwCfg d i)}")
     head ++ String.join insts
 
 def step (st : St) (line : String) : St × String :=
